@@ -335,6 +335,83 @@ example : decodeSort ⟨some "number", false, none, some "upper-first"⟩ = some
     decodeSort ⟨some "", false, some "", none⟩ = some ⟨false, false⟩ ∧
     decodeSort ⟨none, false, some "Descending", none⟩ = none := by decide
 
+/-! ## the sorter between sorts -/
+
+/-- **later_key_reached_only_on_tie.**  A comparison consults a key only when the two nodes tie on all keys
+before it: if the keys `pre` already decide, whatever follows them is irrelevant (and, in `compareFromM`, not even
+evaluated).  This is why a run-time error in a later key expression aborts a sort exactly when two of its nodes
+tie on the earlier keys (`existsTie`, used by the driver for the abort-then-sort pairs). -/
+theorem later_key_reached_only_on_tie (env : Env α) (pre rest : List Key) (a b : α)
+    (h : compare env pre a b ≠ 0) : compare env (pre ++ rest) a b = compare env pre a b :=
+  compareFrom_prefix env pre rest 0 a b h
+
+
+/-- **sorter_clean_at_exit.**  Whatever the sorter held on entry and however the sort ends — normally, or by an
+exception thrown while the caches hold any state at all — the caches, the key vector and the scratch vector are
+empty when `sortChildren` is left (the four `CollectionClearGuard`s). -/
+theorem sorter_clean_at_exit (env : Env α) (keys : List Key) (nodes : List α) (abort : Abort) (s : Sorter α) :
+    (sortOnce env keys nodes abort s).1.Clean := by
+  unfold sortOnce
+  cases abort with
+  | some c => exact ⟨rfl, rfl, rfl⟩
+  | none =>
+    simp only
+    split <;> exact ⟨rfl, rfl, rfl⟩
+
+/-- **sortOnce_correct.**  On a clean sorter a sort that does not abort returns the stable sorted permutation. -/
+theorem sortOnce_correct (env : Env α) (hc : CollationOK env) (keys : List Key) (nodes : List α) (s : Sorter α)
+    (hs : s.Clean) : (sortOnce env keys nodes none s).2 = some (sortNodes env keys nodes) := by
+  obtain ⟨h1, h2, h3⟩ := hs
+  have := sortNodesM_eq_sortNodes env hc keys nodes
+  unfold sortNodesM at this
+  unfold sortOnce
+  simp only [h1, h2, h3, List.nil_append]
+  cases hk : keys.isEmpty
+  · simp only [hk] at this
+    simp only [beq_self_eq_true, if_true]
+    exact congrArg some this
+  · simp only [hk] at this
+    simp only [Bool.true_eq_false, if_false, beq_iff_eq]
+    have hn : keys = [] := List.isEmpty_iff.mp hk
+    subst hn
+    simp [sortNodes]
+
+/-- **sorter_history_correct.**  Over the whole life of a transformer's sorter — any sequence of sorts, any of
+which may abort at any point — every sort that completes returns the stable sorted permutation of ITS nodes under
+ITS keys: no sort depends on an earlier one.  (This discharges the "caches are empty at the start of a sort"
+premise of `cache_transparent_history` / `sortNodesM_eq_sortNodes`.) -/
+theorem sorter_history_correct (reqs : List (SortReq α)) (hc : ∀ q ∈ reqs, CollationOK q.env)
+    (s : Sorter α) (hs : s.Clean) :
+    sortMany s reqs = reqs.map (fun q => match q.abort with
+      | some _ => none
+      | none => some (sortNodes q.env q.keys q.nodes)) := by
+  induction reqs generalizing s with
+  | nil => rfl
+  | cons q rest ih =>
+    simp only [sortMany, List.map_cons]
+    rw [ih (fun q' hq' => hc q' (by simp [hq'])) _ (sorter_clean_at_exit q.env q.keys q.nodes q.abort s)]
+    congr 1
+    cases ha : q.abort with
+    | some c => simp [sortOnce]
+    | none => exact sortOnce_correct q.env (hc q (by simp)) q.keys q.nodes s hs
+
+/-- **noCacheGuards_counterexample.**  With the two cache guards replaced by `clear()` calls after `stable_sort`,
+a sort that aborts after three comparisons leaves its key values behind, and the next sort of the same sorter
+orders its own nodes by them: `[0, 1, 2]` instead of `[2, 1, 0]`.  (Replayed on the real library by the check's
+abort-then-sort pairs.) -/
+theorem noCacheGuards_counterexample :
+    let env1 : Env Nat := ⟨fun _ => strCompare, fun _ n => Dbl.ofBits (0x4000000000000000 + n * 0x10000000000000), fun _ _ => []⟩
+    let env2 : Env Nat := ⟨fun _ => strCompare, fun _ n => Dbl.ofBits (0x4030000000000000 - n * 0x10000000000000), fun _ _ => []⟩
+    let keys : List Key := [⟨true, false⟩]
+    let stale := (isortM env1 keys 3 (scratch [0, 1, 2]) Caches.empty).1
+    let s1 := (sortOnceNoCacheGuards env1 keys [0, 1, 2] (some stale) {}).1
+    (sortOnceNoCacheGuards env2 keys [0, 1, 2] none s1).2 = some [0, 1, 2] ∧
+    sortNodes env2 keys [0, 1, 2] = [2, 1, 0] ∧
+    (sortOnce env2 keys [0, 1, 2] none (sortOnce env1 keys [0, 1, 2] (some stale) {}).1).2 = some [2, 1, 0] := by
+  refine ⟨by decide, ?_, by decide⟩
+  rw [← sortNodesM_eq_sortNodes _ (fun _ => strCompare_threeWay)]
+  decide
+
 /-! ## what the body sees -/
 
 /-- **process_positions.**  The instruction processes the sorted list in order with `position()` =
